@@ -218,6 +218,13 @@ func (otx olvmTx) Validate(ctx *action.Context, signedTx action.SignedTx) (bool,
 		return false, err
 	}
 
+	// Only legacy transactions are supported, and only their fields are
+	// signed: the payload's type and access list are not covered by the
+	// signature, so anybody could alter them; they must be left unset.
+	if tx.TxType != ethtypes.LegacyTxType || tx.AccessList != nil {
+		return false, ethtypes.ErrTxTypeNotSupported
+	}
+
 	//validate basic signature
 	err = tx.validateSigner(ctx, signedTx)
 	if err != nil {
